@@ -120,7 +120,7 @@ func propC15(c *Ctx) {
 			}
 		}
 		walk(v)
-		return okAll && n > 0
+		return okAll && n > 0 && rejectsOtherValues(v)
 	}
 	validatedByParts := func(path string) bool {
 		if !safePaths[path+"#before"] {
@@ -769,48 +769,7 @@ func checkSafeWhitelist(c *Ctx, safe *ssa.Function) {
 		cuts := newCuts().addEdges(whitelistTrue(pred, pred.Params[0]))
 		cuts.closeBoolPhis(pred)
 		// value of a boolean expression under the assumption (every whitelist test false)
-		var evalAssumed func(v ssa.Value, d int) (val, known bool)
-		evalAssumed = func(v ssa.Value, d int) (bool, bool) {
-			if d > 6 {
-				return false, false
-			}
-			switch x := v.(type) {
-			case *ssa.Const:
-				if x.Value != nil {
-					return x.Value.String() == "true", true
-				}
-			case *ssa.UnOp:
-				if x.Op == token.NOT {
-					b, k := evalAssumed(x.X, d+1)
-					return !b, k
-				}
-			case *ssa.Call:
-				switch calleeName(x) {
-				case "unicode.IsLetter", "unicode.IsDigit":
-					if len(x.Call.Args) == 1 && (stripNum(x.Call.Args[0]) == ssa.Value(pred.Params[0]) || sameVar(stripNum(x.Call.Args[0]), pred.Params[0])) {
-						return false, true
-					}
-				}
-			case *ssa.BinOp:
-				if x.Op == token.EQL || x.Op == token.NEQ {
-					var k int64
-					var ok bool
-					isR := func(v ssa.Value) bool {
-						return stripNum(v) == ssa.Value(pred.Params[0]) || sameVar(stripNum(v), pred.Params[0])
-					}
-					switch {
-					case isR(x.X):
-						k, ok = constInt(x.Y)
-					case isR(x.Y):
-						k, ok = constInt(x.X)
-					}
-					if ok && (k == '_' || k == '-') {
-						return x.Op == token.NEQ, true
-					}
-				}
-			}
-			return false, false
-		}
+		evalAssumed := func(v ssa.Value, d int) (val, known bool) { return evalNoWhitelist(whitelistTrue, pred.Params[0], v, d) }
 		accept, _ := reach(entrySite(pred), func(x ssa.Instruction) bool {
 			r, isR := x.(*ssa.Return)
 			if !isR {
@@ -998,4 +957,177 @@ func constKeyedMap(m ssa.Value) bool {
 		}
 	}
 	return true
+}
+
+// evalNoWhitelist: the value of a boolean expression about rune r under the assumption that r is neither a
+// letter, a digit, '_' nor '-' (every whitelist test on r is false).  A call of a repository predicate on r
+// (`permitted(r)`) is evaluated the same way: its value is known when every return that stays reachable
+// under the assumption yields the same known value.
+func evalNoWhitelist(whitelistTrue func(*ssa.Function, ssa.Value) []Edge, r ssa.Value, v ssa.Value, d int) (bool, bool) {
+	if d > 6 {
+		return false, false
+	}
+	isR := func(v ssa.Value) bool { return stripNum(v) == r || sameVar(stripNum(v), r) }
+	switch x := v.(type) {
+	case *ssa.Const:
+		if x.Value != nil {
+			return x.Value.String() == "true", true
+		}
+	case *ssa.UnOp:
+		if x.Op == token.NOT {
+			b, k := evalNoWhitelist(whitelistTrue, r, x.X, d+1)
+			return !b, k
+		}
+	case *ssa.Call:
+		switch calleeName(x) {
+		case "unicode.IsLetter", "unicode.IsDigit":
+			if len(x.Call.Args) == 1 && isR(x.Call.Args[0]) {
+				return false, true
+			}
+		}
+		h := staticCallee(x)
+		if h == nil || h.Blocks == nil || !isRepoFunc(h) || len(h.Params) != 1 || len(x.Call.Args) != 1 || !isR(x.Call.Args[0]) || !isBoolType(x.Type()) {
+			return false, false
+		}
+		hp := h.Params[0]
+		cuts := newCuts().addEdges(whitelistTrue(h, hp))
+		cuts.closeBoolPhis(h)
+		result, have, unknown := false, false, false
+		for _, ret := range returnsOf(h) {
+			if live, _ := reach(entrySite(h), isInstr(ret), cuts); !live {
+				continue
+			}
+			for _, lf := range phiLeaves(returnValues(ret)[0]) {
+				if lf.Pred != nil && lf.Phi != nil && cuts.Edges[Edge{lf.Pred, lf.Phi.Block()}] {
+					continue
+				}
+				if lf.Pred != nil {
+					if live, _ := reach(entrySite(h), func(in ssa.Instruction) bool { return in == terminator(lf.Pred) }, cuts); !live {
+						continue
+					}
+				}
+				val, known := evalNoWhitelist(whitelistTrue, hp, lf.Val, d+1)
+				if !known {
+					unknown = true
+					continue
+				}
+				if have && val != result {
+					unknown = true
+				}
+				result, have = val, true
+			}
+		}
+		if unknown || !have {
+			return false, false
+		}
+		return result, true
+	case *ssa.BinOp:
+		if x.Op == token.EQL || x.Op == token.NEQ {
+			var k int64
+			var ok bool
+			switch {
+			case isR(x.X):
+				k, ok = constInt(x.Y)
+			case isR(x.Y):
+				k, ok = constInt(x.X)
+			}
+			if ok && (k == '_' || k == '-') {
+				return x.Op == token.NEQ, true
+			}
+		}
+	}
+	return false, false
+}
+
+// rejectsOtherValues: v is the "after" half of strings.Cut.  Suppose it equals none of the constants it is
+// compared with (and is in no constant table it is looked up in): then, before the validator goes on to the
+// next element or returns, an error must be recorded (a definitely non-nil error is stored or returned) – or
+// one has been recorded already (an error-typed cell tests non-nil).
+func rejectsOtherValues(v ssa.Value) bool {
+	ex, ok := v.(*ssa.Extract)
+	if !ok {
+		return false
+	}
+	cut, ok := ex.Tuple.(*ssa.Call)
+	if !ok {
+		return false
+	}
+	fn := cut.Parent()
+	cuts := newCuts()
+	derived := map[ssa.Value]bool{v: true}
+	for changed := true; changed; {
+		changed = false
+		allInstrs(fn, func(in ssa.Instruction) {
+			if call, ok := in.(*ssa.Call); ok && !derived[call] {
+				switch calleeName(call) {
+				case "strings.ToLower", "strings.ToUpper", "strings.TrimSpace":
+					if derived[call.Call.Args[0]] {
+						derived[call] = true
+						changed = true
+					}
+				}
+			}
+		})
+	}
+	allInstrs(fn, func(in ssa.Instruction) {
+		switch x := in.(type) {
+		case *ssa.BinOp:
+			if x.Op != token.EQL && x.Op != token.NEQ {
+				return
+			}
+			t, f := boolEdges(x)
+			other := x.Y
+			if derived[x.Y] {
+				other = x.X
+			}
+			if derived[x.X] || derived[x.Y] {
+				if _, isK := constString(other); isK {
+					if x.Op == token.EQL {
+						cuts.addEdges(t)
+					} else {
+						cuts.addEdges(f)
+					}
+				}
+				return
+			}
+			// an error recorded earlier
+			if isNilConst(x.Y) && isErrorType(x.X.Type()) {
+				if u, isU := x.X.(*ssa.UnOp); isU && u.Op == token.MUL {
+					_, nonNil := nilTestEdges(x.X)
+					cuts.addEdges(nonNil)
+				}
+			}
+		case *ssa.Lookup:
+			if derived[x.Index] && constKeyedMap(x.X) {
+				if x.CommaOk {
+					for _, ref := range *x.Referrers() {
+						if e2, isE := ref.(*ssa.Extract); isE && e2.Index == 1 {
+							t, _ := boolEdges(e2)
+							cuts.addEdges(t)
+						}
+					}
+				} else if isBoolType(x.Type()) {
+					t, _ := boolEdges(x)
+					cuts.addEdges(t)
+				}
+			}
+		case *ssa.Store:
+			if definitelyNonNilError(x.Val, nil) {
+				cuts.addInstr(x)
+			}
+		case *ssa.Return:
+			if vals := returnValues(x); len(vals) > 0 && definitelyNonNilError(vals[len(vals)-1], nil) {
+				cuts.addInstr(x)
+			}
+		}
+	})
+	cuts.closeBoolPhis(fn)
+	escape, _ := reach(siteOf(cut), func(in ssa.Instruction) bool {
+		if in == ssa.Instruction(cut) {
+			return true
+		}
+		_, isRet := in.(*ssa.Return)
+		return isRet
+	}, cuts)
+	return !escape
 }
